@@ -24,7 +24,7 @@ class A(Adapter):
     terminate_on_invalid = False
     max_steps = 30
     episode_cap = 260
-    ops = ("state", "step", "judge", "instance", "bounds")
+    ops = ("state", "step", "judge", "instance", "bounds", "spec")
     state_fields = ["agents", "foods", "step_count"]
 
     def configs(self, tier):
@@ -205,6 +205,16 @@ class A(Adapter):
         import envprops
         import jax
         import jax.numpy as jnp
+        import wave3_routing as w3
+
+        # wave 4 (C01; runs inside the C09 / C12 sweeps): the declared specs of the configured observer against the model's obsSpec /
+        # actionSpec / reward / discount spec (lbf.spec — incl. the grid observer's agents_view leaf, too large for Gen/Specs.lean), the
+        # reset timestep, the observation arrays against `toNValue`, observation_spec.validate against (obsSpec cfg A F L).valid and
+        # the invariant SpecInv of the membership theorems on every implementation state of a few episodes incl. the terminal one
+        # (theorems lbf_obsSpec_generated, lbf_*_obs_valid, lbf_specInv_invariant)
+        w3.check_specs(ctx, self, cfg, env, drv)
+        w3.check_reset_and_obs(ctx, self, cfg, env, runner, rng, drv, 2 if ctx.quick else 6, 12 if ctx.quick else 60,
+                               policies=("uniform", "masked", "adversarial"), extra="spec_inv")
 
         template, _ = runner.reset(jax.random.PRNGKey(int(rng.integers(1 << 31))))
         g, na, nf, tl = env.grid_size, env.num_agents, env.num_food, int(env.time_limit)
@@ -255,3 +265,6 @@ class A(Adapter):
             if d:
                 ctx.fail(self.name, "obs_vs_state:synthetic", f"observation differs from the documented function of the state at {d[:4]}",
                          {"env": self.name, "config": cfg.cid, "state": self.ser_state(env, s2)})
+        # wave 4: the dense synthetic states carry levels beyond the generator's range, so some of their observations are OUTSIDE the
+        # declared spec: observation_spec.validate and the model's (obsSpec cfg A F L).valid must agree on those too (no invariant here)
+        w3._obs_checks(ctx, self, cfg, env, drv, [(s2, ts2, False) for (_, _, s2, ts2) in cases[::3]], "synthetic dense state")
